@@ -21,6 +21,9 @@ def _param_of(g, op, params):
 
 
 def behaviour(F, path, pa=1, pb=3):
+    """pa/pb: parameter numbers of the two array operands; the row operands are assumed to follow them (pa+1, pb+1) and are
+    what tells the two sides apart when the arrays come out of one zipped iterator.  A loop over key columns is evaluated
+    for ONE column (the iterator yields Some once, then None)."""
     g = F.fn(path)
     out = {}
     for an in (True, False):
@@ -29,44 +32,79 @@ def behaviour(F, path, pa=1, pb=3):
     return out
 
 
-def _walk(g, an, bn, pa, pb, limit=200):
+def _side(g, c, pa, pb):
+    """which operand an is_null/is_valid call tests: by its row argument first, by its receiver otherwise"""
+    if len(c.args) >= 2:
+        ps = _param_of(g, c.args[1], {pa + 1, pb + 1})
+        if len(ps) == 1:
+            return pa if (pa + 1) in ps else pb
+    ps = _param_of(g, c.args[0], {pa, pb})
+    if len(ps) == 1:
+        return pa if pa in ps else pb
+    return None
+
+
+def _walk(g, an, bn, pa, pb, limit=400):
     bb, steps = 0, 0
-    known = {}   # local -> bool
+    known = {}   # place string (local or local|f:n:()) -> bool
+    visits = {}
+    def val(op):
+        if isinstance(op, dict):
+            return op.get("v") if isinstance(op.get("v"), bool) else None
+        q = op_place(op) if (len(op) > 1 and op[1] == ":") else op
+        return known.get(q) if q else None
     while steps < limit:
         steps += 1
         blk = g.blocks[bb]
         for st in blk["s"]:
             dst, rv = st[0], st[1]
-            if dst == "0" and rv[0] == "use" and isinstance(rv[1], dict) and isinstance(rv[1].get("v"), bool):
-                return "true" if rv[1]["v"] else "false"
-            if "|" not in dst and rv[0] == "use" and not isinstance(rv[1], dict):
-                q = op_place(rv[1])
-                if q and "|" not in q and place_local(q) in known:
-                    known[place_local(dst)] = known[place_local(q)]
-            if "|" not in dst and rv[0] == "un" and rv[1] == "Not" and not isinstance(rv[2], dict):
-                q = op_place(rv[2])
-                if q and "|" not in q and place_local(q) in known:
-                    known[place_local(dst)] = not known[place_local(q)]
-            if dst == "0" and rv[0] == "use" and not isinstance(rv[1], dict):
-                q = op_place(rv[1])
-                if q and "|" not in q and place_local(q) in known:
-                    return "true" if known[place_local(q)] else "false"
+            v = None
+            if rv[0] == "use":
+                v = val(rv[1])
+            elif rv[0] == "un" and rv[1] == "Not":
+                w = val(rv[2])
+                v = None if w is None else (not w)
+            elif rv[0] == "bin" and rv[1] in ("BitOr", "BitAnd"):
+                x, y = val(rv[2]), val(rv[3])
+                if x is not None and y is not None:
+                    v = (x or y) if rv[1] == "BitOr" else (x and y)
+            elif rv[0] == "agg" and rv[1] == "tuple":
+                for n_, o_ in enumerate(rv[2]):
+                    w = val(o_)
+                    if w is not None:
+                        known[f"{dst}|f:{n_}:()"] = w
+                continue
+            if dst == "0":
+                if v is not None:
+                    return "true" if v else "false"
+                if rv[0] == "use":
+                    return "V"
+            if v is not None:
+                known[dst] = v
+            else:
+                known.pop(dst, None)
         t = blk["t"]
         if t[0] == "call":
             c = [x for x in g.calls() if x.bb == bb]
             c = c[0] if c else None
-            if c is not None:
-                last = c.name.rsplit("::", 1)[-1]
-                if last in ("is_null", "is_valid") and c.args and c.dest and "|" not in c.dest:
-                    ps = _param_of(g, c.args[0], {pa, pb})
-                    if len(ps) == 1:
-                        isn = an if pa in ps else bn
-                        known[place_local(c.dest)] = isn if last == "is_null" else (not isn)
-                if c.target is None:
+            if c is None:
+                return "V"
+            last = c.name.rsplit("::", 1)[-1]
+            if last in ("is_null", "is_valid") and c.args and c.dest:
+                sd = _side(g, c, pa, pb)
+                if sd is not None:
+                    isn = an if sd == pa else bn
+                    known[c.dest] = isn if last == "is_null" else (not isn)
+                else:
+                    known.pop(c.dest, None)
+            elif c.dest:
+                known.pop(c.dest, None)
+                if c.dest == "0":
                     return "V"
-                bb = c.target
-                continue
-            return "V"
+            if c.target is None:
+                return "V"
+            bb = c.target
+            continue
         if t[0] == "goto":
             bb = t[1]
             continue
@@ -77,11 +115,19 @@ def _walk(g, an, bn, pa, pb, limit=200):
             return "V"
         if t[0] == "switch":
             si = g.switch_info(bb)
-            if si and si[0] == "bool" and si[1] and "|" not in si[1] and place_local(si[1]) in known:
-                bb = si[2][known[place_local(si[1])]]
-                continue
+            if si and si[0] == "bool" and si[1]:
+                w = known.get(si[1])
+                if w is not None:
+                    bb = si[2][w] if w in si[2] else si[3]
+                    continue
+                return "V"
+            if si and si[0] == "enum" and si[1][1] == "std::option::Option" and "Some" in si[2]:
+                o = origin(g, "c:" + si[1][0])
+                if o[0] == "call" and o[1].name.rsplit("::", 1)[-1] == "next":
+                    visits[bb] = visits.get(bb, 0) + 1
+                    bb = si[2]["Some"] if visits[bb] == 1 else si[2].get("None", si[3])
+                    continue
             return "V"
-        # assert / other terminators: follow the success edge when there is exactly one successor
         succ = g.succ(bb)
         if len(succ) == 1:
             bb = succ[0]
